@@ -196,6 +196,10 @@ def empty_vec_is_absent(ck, F, rid="C09.R11"):
                         asks_marker = True
             if t[0] == "call" and t[1].rsplit("::", 1)[-1] in ("is_empty", "all") and v != 0:
                 asks_empty = True
+            # the same as a loop: the marker is answered when the iteration over the elements is exhausted (no element left
+            # that is present; an empty Vec is exhausted at once)
+            if t[0] == "discr" and show(t).startswith("discr(next(") and v == 0:
+                asks_empty = True
             if t[0] == "bin" and t[1] in ("Eq",) and "len(" in show(t) and v != 0:
                 asks_empty = True
         marker_paths.append(p)
@@ -807,6 +811,15 @@ def none_marker_conjunction(ck, F, rid="C09.R17"):
             if imp["self_ty"].startswith("alloc::vec::Vec<"):
                 al = [c for c in p.conds if show(c[0]).startswith("all(")]
                 if al and ((al[0][1] != 0) == txt.startswith("Option::Some")):
+                    continue
+                # the loop spelling: `absent` only once the elements are exhausted, `present` as soon as one does not answer
+                cs = [(show(c[0]), c[1]) for c in p.conds]
+                exhausted = any(t.startswith("discr(next(") and v == 0 for t, v in cs)
+                one_present = any((t.startswith("is_none(downcast_raw(") and v != 0) or (t.startswith("is_some(downcast_raw(") and v == 0) or
+                                  (t.startswith("discr(downcast_raw(") and v == 0) for t, v in cs)
+                if txt.startswith("Option::Some") and exhausted and not one_present:
+                    continue
+                if txt.startswith("Option::None") and one_present:
                     continue
             problems.append("answers %s" % txt[:90])
         if problems or not n:
